@@ -59,7 +59,7 @@ struct Cfg { virtual_tokens: bool, bare_right: bool, lex: String, chardef: Strin
 
 fn gen_cfg(rng: &mut Rng, expose: bool) -> Cfg {
     let pos = ["名詞", "動詞", "助詞"];
-    let sub = ["一般", "*", "固有", "x,y"];
+    let sub = ["一般", "*", "固有", "x,y", "\"q", "i\"j"];
     let base = ["基", "*", "b2"];
     let read = ["ア", "イ", "*"];
     let surf = ["a", "b", "ab", "ba", "c", "猫", "犬", "走る", "bc", "a,b"];
@@ -70,6 +70,12 @@ fn gen_cfg(rng: &mut Rng, expose: bool) -> Cfg {
     };
     let nrows = 5 + rng.below(7) as usize;
     let rows: Vec<(String, String)> = (0..nrows).map(|_| (rng.pick(&surf[..]).to_string(), feats(rng))).collect();
+    let mut rows = rows;
+    if rng.chance(1, 25) {
+        // a surface whose CSV-escaped form is longer than 4096 bytes (3900 letters and 150 double quotes)
+        let long: String = (0..4050).map(|i| if i % 27 == 0 { '"' } else { 'a' }).collect();
+        rows.push((long, feats(rng)));
+    }
     let lex: String = rows.iter().map(|(s, f)| format!("{},0,0,0,{}\n", quote(s), f)).collect();
     let chardef = "DEFAULT 0 1 0\nALPHA 1 1 0\nKANJI 0 0 2\n0x0061..0x007A ALPHA\n0x4E00..0x9FFF KANJI\n".to_string();
     let mut unk = String::new();
@@ -86,7 +92,10 @@ fn gen_cfg(rng: &mut Rng, expose: bool) -> Cfg {
         // a literal tag on both sides keeps every expansion different from the file format's
         // markers '*' and ''; 1 case in 10 omits the right tag (known-finding class K3)
         let rtag = if bare_right { String::new() } else { format!("r{}:", p) };
-        bigrams.push((format!("B{}:{}", p, side(rng, 'L')), format!("{}{}", rtag, side(rng, 'R'))));
+        // a literal '#' inside a template (left or right part) in 1 template of 5
+        let (hl, hr) = match rng.below(10) { 0 => ("#", ""), 1 => ("", "#"), _ => ("", "") };
+        let rtag = if rtag.is_empty() { rtag } else { format!("r{}{}:", hr, p) };
+        bigrams.push((format!("B{}{}:{}", hl, p, side(rng, 'L')), format!("{}{}", rtag, side(rng, 'R'))));
     }
     // C17's stream: four templates that expose the columns of the left- and right-rewritten features one by one
     let (bigrams, k, bare_right) = if expose {
@@ -129,7 +138,12 @@ fn gen_cfg(rng: &mut Rng, expose: bool) -> Cfg {
     { let (_, f) = rng.pick(&rows); user.push_str(&format!("uz,0,0,0,{}\n", f)); }
     for i in 0..1 + rng.below(6) {
         let s = format!("u{}{}", ["x", "y", "猫猫"][i as usize % 3], i);
-        if rng.chance(1, 2) { user.push_str(&format!("{},0,0,0,{}\n", s, feats(rng))); } else { user.push_str(&format!("{},1,1,{},{}\n", s, rng.range(-50, 50), feats(rng))); }
+        match rng.below(6) {
+            0 | 1 | 2 => user.push_str(&format!("{},0,0,0,{}\n", s, feats(rng))),
+            3 => user.push_str(&format!("{},0,0,{},{}\n", s, *rng.pick(&[77i64, -5, 1]), feats(rng))),   // explicit although both ids are 0
+            4 => user.push_str(&format!("{},{},{},0,{}\n", s, rng.below(2), 1 - rng.below(2).min(1), feats(rng))),
+            _ => user.push_str(&format!("{},1,1,{},{}\n", s, rng.range(-50, 50), feats(rng))),
+        }
     }
     Cfg { virtual_tokens, bare_right, lex, chardef, unk, feature_def, rewrite_def, corpus, user, bigrams, k }
 }
@@ -164,6 +178,17 @@ fn pinned_cfgs() -> Vec<(Cfg, u64)> {
             bigrams: vec![("B0:%L[1]".into(), "r0:%R[3]".into()), ("B1:%L[3],%L[0]".into(), "r1:%R[0]".into())], k: 2,
         }, 4),
     ]
+}
+
+/// A sink that accepts at most `cap` bytes per `write` call (legal for `std::io::Write`).
+struct Chunked { data: Vec<u8>, cap: usize }
+impl Write for Chunked {
+    fn write(&mut self, buf: &[u8]) -> std::io::Result<usize> {
+        let n = buf.len().min(self.cap);
+        self.data.extend_from_slice(&buf[..n]);
+        Ok(n)
+    }
+    fn flush(&mut self) -> std::io::Result<()> { Ok(()) }
 }
 
 struct Files { lex: Vec<u8>, matrix: Vec<u8>, unk: Vec<u8>, user: Vec<u8>, left: Vec<u8>, right: Vec<u8>, cost: Vec<u8> }
@@ -210,7 +235,20 @@ pub fn run(prop: &str, seed: u64, n: usize, outdir: &str, _corpus: Option<&str>)
         let (c, iters) = match pin { Some((c, it)) => (c, it), None => { let c = gen_cfg(&mut rng, expose); let it = 2 + rng.below(5); (c, it) } };
         let human = format!("lex.csv={} unk.def={} feature.def={} rewrite.def={} corpus={} user.csv={} iters={}", json_str(&c.lex), json_str(&c.unk), json_str(&c.feature_def), json_str(&c.rewrite_def), json_str(&c.corpus), json_str(&c.user), iters);
         let mut flags: Vec<(String, u8)> = vec![];
-        flags.push(("k3_bare_template".into(), c.bare_right as u8));
+        flags.push(("k3_bare_template".into(), 0)); // set below, once bigram.cost is known
+        // the generated definition files are well-formed: the configuration must be accepted
+        let cfg_ok = std::panic::catch_unwind(|| TrainerConfig::from_readers(c.lex.as_bytes(), c.chardef.as_bytes(), c.unk.as_bytes(), c.feature_def.as_bytes(), c.rewrite_def.as_bytes()).is_ok()).unwrap_or(false);
+        if !cfg_ok {
+            flags.push(("c18_definition_files_accepted".into(), 0));
+            *dist.entry("configuration_rejected".into()).or_default() += 1;
+            let term = format!(
+                "(Build_trncase {} {} {} {} [([], [], [])])",
+                sub, clist(&flags, |(k, v)| format!("({}, {})", cstr(k), v)),
+                clist(&c.bigrams, |(l, r)| format!("({}, {})", cstr(l), cstr(r))), cstr(&c.rewrite_def)
+            );
+            sh.push_h(format!("seed:{}", sub), term, human.clone());
+            continue;
+        }
         let mut model = match std::panic::catch_unwind(std::panic::AssertUnwindSafe(|| train(&c, iters, if expose { Some(1e-9) } else { None }))) { Ok(Some(m)) => m, _ => { *dist.entry("training_failed".into()).or_default() += 1; continue; } };
         *dist.entry(format!("templates_{}", if c.k >= 8 { "ge8" } else { "lt8" })).or_default() += 1;
         if c.virtual_tokens { *dist.entry("corpus_with_uncovered_tokens".into()).or_default() += 1; }
@@ -245,6 +283,10 @@ pub fn run(prop: &str, seed: u64, n: usize, outdir: &str, _corpus: Option<&str>)
         flags.push(("c15_generate_twice".into(), same_files(&f0, &f0b) as u8));
         let mut mbytes = vec![];
         let wrote = model.write_model(&mut mbytes).is_ok();
+        // the same model through a sink that takes the bytes in small pieces
+        let mut ch = Chunked { data: vec![], cap: 1 + rng.below(700) as usize };
+        let wrote_ch = model.write_model(&mut ch).is_ok();
+        flags.push(("c15_write_model_short_writes".into(), (wrote_ch == wrote && ch.data == mbytes) as u8));
         let mut m2 = match Model::read_model(&mbytes[..]) { Ok(m) => m, Err(_) => { flags.push(("c15_read_model".into(), 0)); model.read_user_lexicon(c.user.as_bytes()).ok(); Model::read_model(&mbytes[..]).unwrap_or_else(|_| panic!()) } };
         flags.push(("c15_write_read_model".into(), wrote as u8));
         let g2 = generate(&mut m2).unwrap();
@@ -261,6 +303,9 @@ pub fn run(prop: &str, seed: u64, n: usize, outdir: &str, _corpus: Option<&str>)
         m3.read_user_lexicon(c.user.as_bytes()).ok();
         let g4 = generate(&mut m3).unwrap();
         flags.push(("c15_cache_free_reference".into(), same_files(&f1, &g4) as u8));
+        // known-finding class K3 applies only when bigram.cost really lists the bare string '*' as a feature
+        let star_listed = String::from_utf8_lossy(&f1.cost).lines().any(|l| l.split('\t').next().map_or(false, |f| f.split('/').any(|x| x == "*")));
+        flags[0].1 = (c.bare_right && star_listed) as u8;
         // ---- C14
         let lex_out = String::from_utf8_lossy(&f1.lex).to_string();
         let seed_rows: Vec<_> = c.lex.lines().map(|l| split_row(l)).collect();
